@@ -286,7 +286,7 @@ def prop_statement(sh, case):
 
 def entry_signature(e):
     if isinstance(e, data.Transaction):
-        ps = tuple((p.account, p.units, None if p.cost is None else (getattr(p.cost, 'number', None) or getattr(p.cost, 'number_per', None),
+        ps = tuple((p.account, p.units, None if p.cost is None else (p.cost.number if hasattr(p.cost, 'number') else p.cost.number_per,
                                                                    p.cost.currency), p.price, p.flag) for p in e.postings)
         return (e.flag, e.payee, e.narration, frozenset(e.tags or ()), frozenset(e.links or ()), ps, clean_meta(e.meta),
                 tuple(clean_meta(p.meta) for p in e.postings))
